@@ -232,7 +232,7 @@ def rule_from_str(ctx):
         raise A.AnchorLost(f"{rel}::enum_from", "loop over the case-insensitive groups")
     lb = [A.render_stmt(s) for s in loop["body"]["stmts"]]
     ok = len(lb) == 1 and re.fullmatch(
-        r"if variants\.len\(\)==1\{let variant=&variants\[0\];cases\.push\(quote!\(#canonical=>#input_type::#variant,\)\)\}else \{for variant in variants\{let variant_str=variant\.unraw\(\)\.to_string\(\);cases\.push\(quote!\(#canonicalif\(src==#variant_str\)=>#input_type::#variant,\)\)\}\}",
+        r"if variants\.len\(\)==1\{let variant=&variants\[0\];cases\.push\(quote!\(#canonical=>#input_type::#variant,\)\)\}else \{for variant in variants\{let variant_str=variant\.unraw\(\)\.to_string\(\);cases\.push\(quote!\(#canonical if\(src==#variant_str\)=>#input_type::#variant,\)\)\}\}",
         lb[0],
     )
     need(
@@ -299,7 +299,7 @@ def rule_delegation(ctx):
         ("reference", "RefType::No"): "quote!()", ("reference", "RefType::Ref"): "quote!(&)", ("reference", "RefType::Mut"): "quote!(&mut)",
         ("mutability", "RefType::Mut"): "quote!(mut)", ("mutability", "_"): "quote!()",
         ("lifetime", "RefType::No"): "quote!()", ("lifetime", "_"): "quote!('__deriveMoreLifetime)",
-        ("pattern_ref", "RefType::Ref"): "quote!(ref)", ("pattern_ref", "RefType::Mut"): "quote!(refmut)", ("pattern_ref", "RefType::No"): "quote!()",
+        ("pattern_ref", "RefType::Ref"): "quote!(ref)", ("pattern_ref", "RefType::Mut"): "quote!(ref mut)", ("pattern_ref", "RefType::No"): "quote!()",
     }
     for k, v in want.items():
         need(ctx, f"reftype:{k[0]}:{k[1]}", tbl.get(k) == v, ctx.where(rt[k[0]].file, rt[k[0]].node), f"`RefType::{k[0]}` for `{k[1]}` yields `{tbl.get(k)}` instead of `{v}`: owned / shared / mutable forms no longer differ only by their reference tokens")
